@@ -30,6 +30,7 @@ THEOREMS = {
     "C07": [("XV.Macro.loop_partition", _PM), ("XV.Macro.param_is_concat", _PM), ("XV.Macro.concat_is_source_slice", _PM)],
     "C08": [("XV.Tz.string_tokens_are_source_slices", "XonshVerif.Properties.C08"), ("XV.Tz.srcText_is_slice_of_source", "XonshVerif.Properties.C08"), ("XV.Tz.tokenizeLines_strings", "XonshVerif.Proofs.StringTiling"),
             ("XV.Tz.pseudo_token_is_source_slice", "XonshVerif.Proofs.Tiling"), ("XV.Tz.handleEndProgs_adv", _PT), ("XV.Tz.nextPseudo_adv", _PT), ("XV.Tz.scanLine_no_loopFuel", _PT)],
+    "C09": [("XV.Ops.first_listed_is_longest", "XonshVerif.Properties.C09"), ("XV.Ops.prefix_of_prefixes", "XonshVerif.Properties.C09")],
     "C11": [("XV.Helpers.error_wellformed", _HELP)],
     "C04": [("XV.Act.nullable_sound", "XonshVerif.Properties.C04"), ("XV.Act.required_fields_never_none", "XonshVerif.Properties.C04")],
     "C12": [("XV.Lines.getLines_file_eq_string", "XonshVerif.Properties.C12"), ("XV.Lines.scanFile_spec", "XonshVerif.Properties.C12")],
@@ -159,7 +160,7 @@ _DEAD = [("XVC.dead_cert", _D), ("XVC.dead_rules_expected", _D), ("XVC.dead_alte
 _RX_PROGRESS = [("XVC.regex_translation_complete", _R), ("XVC.pseudo_branches_progress", _R), ("XVC.pseudo_branch_names", _R), ("XVC.string_patterns_progress", _R), ("XVC.quotes_covered", _R)]
 CERTS = {
     "C08": _RX_PROGRESS,
-    "C09": _RX_PROGRESS + [("XVC.longest_operator_first", _R), ("XVC.tabsize_is_8", _R)],
+    "C09": _RX_PROGRESS + [("XVC.longest_operator_first", _R), ("XVC.longest_operator_first_chars", _R), ("XVC.shipped_operator_alternation_is_maximal_munch", _R), ("XVC.tabsize_is_8", _R)],
     "C10": _RX_PROGRESS,
     "C14": _RX_PROGRESS,
     "C01": [("XVC.ir_complete", _B)] + _DEAD,
